@@ -34,6 +34,13 @@ func main() {
 		rules.DebugProto(c, os.Args[2:])
 		return
 	}
+	if os.Args[1] == "debug-prov" {
+		c := core.NewCtx("DBG", "quick")
+		c.Load(os.Args[2:]...)
+		c.BuildSSA()
+		rules.DebugProv(c, os.Args[2:])
+		return
+	}
 	prop := os.Args[1]
 	tier := "quick"
 	if len(os.Args) > 2 {
